@@ -346,6 +346,13 @@ reg("UpConverter(16->32)", "quick", kind="up", mw=16, sw=32, adrs=(0, 1, 2), nby
 reg("Converter(16->8)", "quick", kind="conv", mw=16, sw=8, adrs=(0, 1), nbytes=4)
 reg("Converter(8->16)", "quick", kind="conv", mw=8, sw=16, adrs=(0, 1, 2), nbytes=4)
 reg("Converter(8->8)", "quick", kind="conv", mw=8, sw=8, adrs=(0, 1), nbytes=2)
+# the whole 4-bit master address space, words in the upper half: the top slave address bit comes from the top master address bit
+reg("DownConverter(16->8),top address bit", "quick", kind="down", mw=16, sw=8, adrs=(1, 8, 15), nbytes=32, marks=(1,))
+reg("DownConverter(32->8),top address bit", "quick", kind="down", mw=32, sw=8, adrs=(7, 8), sels=(0b0001, 0b1111, 0b0110), nbytes=64, marks=(1,))
+reg("DownConverter(32->16),top address bit", "quick", kind="down", mw=32, sw=16, adrs=(4, 15), sels=(0b0011, 0b1111, 0b1000), nbytes=64, marks=(1,))
+reg("Converter(16->8),top address bit", "quick", kind="conv", mw=16, sw=8, adrs=(7, 8), nbytes=32, marks=(1,))
+reg("UpConverter(8->16),top address bit", "quick", kind="up", mw=8, sw=16, adrs=(7, 8, 15), nbytes=16, marks=(1,))
+reg("UpConverter(8->32),top address bit", "quick", kind="up", mw=8, sw=32, adrs=(3, 12, 15), nbytes=16, marks=(1,))
 reg("SRAM(16bit,rw)", "quick", kind="sram", mw=16, adrs=(0, 1), nbytes=4)
 reg("SRAM(32bit,rw)", "quick", kind="sram", mw=32, adrs=(0, 1), sels=SEL32, nbytes=8, marks=(1,))
 reg("SRAM(16bit,read_only)", "quick", kind="sram", mw=16, adrs=(0, 1), nbytes=4, read_only=True)
